@@ -8,6 +8,12 @@ use std::sync::{Arc, Mutex};
 use std::task::{Context, Poll};
 use tokio::io::{AsyncRead, AsyncSeek, AsyncWrite, ReadBuf};
 
+/// At most this many `Pending`s are returned per endpoint: a *schedule* of spurious pendings is
+/// finite. An endpoint that is periodically pending forever can livelock even correct code whose
+/// operation needs two consecutive ready polls and restarts from the first one after every wake
+/// (e.g. `poll_close` = `poll_flush` then `poll_shutdown`).
+pub const MAX_PENDINGS: u64 = 96;
+
 #[derive(Clone, Debug, Default, Serialize, Deserialize, PartialEq)]
 pub struct PollScript {
     /// per poll (cycled): 0 = return Pending (and wake), n>0 = transfer at most n bytes.
@@ -38,11 +44,12 @@ pub struct AdvAsyncRead {
     i: usize,
     pub stats: Arc<Mutex<PollStats>>,
     seek_target: Option<u64>,
+    pendings_given: u64,
 }
 
 impl AdvAsyncRead {
     pub fn new(data: Arc<Vec<u8>>, script: &PollScript) -> Self {
-        AdvAsyncRead { data, pos: 0, steps: script.normalised(), i: 0, stats: Arc::new(Mutex::new(PollStats::default())), seek_target: None }
+        AdvAsyncRead { data, pos: 0, steps: script.normalised(), i: 0, stats: Arc::new(Mutex::new(PollStats::default())), seek_target: None, pendings_given: 0 }
     }
     fn step(&mut self) -> Option<u32> {
         if self.steps.is_empty() {
@@ -50,7 +57,15 @@ impl AdvAsyncRead {
         }
         let s = self.steps[self.i % self.steps.len()];
         self.i += 1;
-        if s == 0 { None } else { Some(s) }
+        if s == 0 {
+            if self.pendings_given >= MAX_PENDINGS {
+                return Some(1);
+            }
+            self.pendings_given += 1;
+            None
+        } else {
+            Some(s)
+        }
     }
 }
 
@@ -115,6 +130,7 @@ pub struct AdvAsyncWrite {
     i: usize,
     pub stats: Arc<Mutex<PollStats>>,
     pub shutdown_called: Arc<Mutex<bool>>,
+    pendings_given: u64,
 }
 
 impl AdvAsyncWrite {
@@ -125,6 +141,7 @@ impl AdvAsyncWrite {
             i: 0,
             stats: Arc::new(Mutex::new(PollStats::default())),
             shutdown_called: Arc::new(Mutex::new(false)),
+            pendings_given: 0,
         }
     }
     fn step(&mut self) -> Option<u32> {
@@ -133,7 +150,15 @@ impl AdvAsyncWrite {
         }
         let s = self.steps[self.i % self.steps.len()];
         self.i += 1;
-        if s == 0 { None } else { Some(s) }
+        if s == 0 {
+            if self.pendings_given >= MAX_PENDINGS {
+                return Some(1);
+            }
+            self.pendings_given += 1;
+            None
+        } else {
+            Some(s)
+        }
     }
 }
 
